@@ -51,7 +51,43 @@ def check_reject(text, models=None):
     return [("unknown-model-accepted", f"registered={models}: text with an undefined model word was accepted as {got}\n{text}")]
 
 
+# ---- histories of parser instances in ONE process: a registration belongs to the instance it was made on ----------
+REG_SETS = [[], ["MYGEN"], ["MYGEN_V2", "OTHERGEN"], ["MYGEN", "MYGEN_V2"]]
+WORDS = ["MYGEN", "MYGEN_V2", "OTHERGEN", "PHSP"]
+INSTANCE_OPS = [(r, w) for r in range(len(REG_SETS)) for w in range(len(WORDS))]
+
+
+def run_instance_history(hist):
+    """Each step: a fresh DecFileParser registers REG_SETS[r] and parses a line that uses WORDS[w] as its model.
+    Accepted iff the word is published or registered ON THAT INSTANCE (whatever earlier instances registered)."""
+    fails = []
+    for step, (r, w) in enumerate(hist):
+        word, reg = WORDS[w], REG_SETS[r]
+        text = f"Decay mth\n0.5 q1 q2 PHSP;\n1.0 q1 q2 {word} 1.0;\nEnddecay\n"
+        should = word in MODELS or word in reg
+        try:
+            p = decobs.DecFileParser.from_string(text)
+            if reg:
+                p.load_additional_decay_models(*reg)
+            p.parse()
+            tab = decobs.table_of(p, "mth")
+            accepted = True
+        except Exception:  # noqa: BLE001
+            accepted = False
+        if step == len(hist) - 1:
+            if accepted and not should:
+                fails.append(("unknown-model-accepted@history", f"instances {[(REG_SETS[a], WORDS[b]) for a, b in hist]}: the last parser registered {reg} but accepts model word {word!r}: {tab}"))
+            elif not accepted and should:
+                fails.append(("rejected@history", f"instances {[(REG_SETS[a], WORDS[b]) for a, b in hist]}: the last parser registered {reg} but rejects {word!r}"))
+            elif accepted and tab[1][3] != word:
+                fails.append(("table-model@history", f"instances {[(REG_SETS[a], WORDS[b]) for a, b in hist]}: model reported {tab[1][3]!r} instead of {word!r}"))
+    return {"canon": ("instances", len(fails) > 0), "fails": fails, "enabled": INSTANCE_OPS, "outcome": "F" if fails else "ok"}
+
+
 def exec_case(kind, payload):
+    if kind == "instances":
+        from mc.core import run_forked
+        return run_forked(run_instance_history, tuple(tuple(o) for o in payload["history"]))["fails"]
     if kind == "accept":
         return check_accept(payload["ast"], payload.get("models"), payload.get("calls"))
     if kind == "reject":
@@ -135,6 +171,10 @@ def build(ctx):
 
 
 def run(ctx):
+    from mc.bfs import bfs
+    depth = 3 if ctx.thorough else 2
+    bfs(ctx, "parser-instances-in-one-process", run_instance_history, depth, depth, "instances",
+        payload_of=lambda h: {"history": [list(o) for o in h]}, chunk=16, isolate=True)
     items, counts = build(ctx)
     ctx.log(f"cases: {counts}")
     ctx.sample({"kind": items[1][0], "text": decmodel.render(items[1][1]["ast"])})
